@@ -15,6 +15,11 @@
 //   remove_star(v | ab | s)         K - {t : t >= s}
 //   contract_edge(a,b)              {f(t) : t in K}, f(b)=a   (only generated when the MODEL finds Lk(ab)=Lk(a)^Lk(b))
 //   blockers                        minimal non-faces of dimension >= 2 (not in K, every facet in K)
+//
+// Divergence: a history after which implementation and model differ is reported once and not extended.  Exception: when
+// the divergence is exactly the recorded star-removal finding (footprint recognised from the observation), the history
+// is reported and the exploration continues from the MODEL state on an object rebuilt from it (re-synchronisation), so
+// states that are only reachable through such a removal stay covered.
 #include "harness.hpp"
 #include "explorer.hpp"
 #include "ref_complex.hpp"
@@ -22,7 +27,6 @@
 #include <gudhi/Skeleton_blocker/Skeleton_blocker_simple_traits.h>
 #include <gudhi/Skeleton_blocker_complex.h>
 
-#include <fcntl.h>
 #include <iostream>
 #include <memory>
 
@@ -208,7 +212,8 @@ struct Driver {
   size_t first_regular = 0;
 
   void init(int nmax_, int nctor_, int variants_) {
-    nmax = nmax_; nctor = std::min(nctor_, nmax_); variants = variants_;
+    nmax = std::min(nmax_, 6);  // the reference complex is a 64-bit set of vertex masks
+    nctor = std::min(nctor_, nmax); variants = variants_;
     // constructors (first operation only)
     for (int n = 1; n <= nmax; ++n) { Op o{INIT_N}; o.n = n; ops.push_back(o); }
     for (int n = 1; n <= nctor; ++n) {
@@ -393,7 +398,7 @@ struct Driver {
   // complete observation of c against m; every class is "C17:<observer>:<tag>[:<direction>]"
   void observe(const SB& c, const Model& m, const std::string& tag, const std::string& fp) const {
     int nb = (int)boost::num_vertices(c.skeleton);
-    int nn = std::min(6, std::max(m.N, nb));
+    int nn = std::min(8, std::max(m.N, nb));  // also sees handles the implementation created beyond the model's
     auto ctx_f = [&]() { return " | model " + m.text() + " blockers=" + mlist(m.blockers()); };
 #define ctx ctx_f()
     // contains(s) for every vertex set
@@ -433,19 +438,10 @@ struct Driver {
       // no vertex was ever created: num_connected_components() forms &component[0] on an empty vector
       // (Skeleton_blocker_complex.h:1032), which UBSan stops.  Run the call in a child so that the sanitizer stop is
       // recorded as a mismatch of its own class instead of ending the exploration.
-      fflush(stdout);
-      pid_t pid = fork();
-      if (pid == 0) {
-        int fd = open("/dev/null", O_WRONLY);
-        if (fd >= 0) { dup2(fd, 1); dup2(fd, 2); }
-        int v = c.num_connected_components();
-        _exit(v == 0 ? 0 : 42);
-      }
-      int st = 0;
-      waitpid(pid, &st, 0);
-      if (WIFEXITED(st) && WEXITSTATUS(st) == 42) ncc = -1;
-      else if (!WIFEXITED(st) || WEXITSTATUS(st) != 0)
-        mm("C17:num_connected_components:empty_skeleton:sanitizer_stop", "num_connected_components() on a complex without any created vertex: child ended with status " + std::to_string(st) + " (UBSan: reference binding to null pointer, &component[0] of an empty vector)");
+      std::string pr = vf::probe_range(0, 1, [&](size_t) { return c.num_connected_components() == 0 ? 'y' : 'n'; });
+      if (pr == "n") ncc = -1;
+      else if (pr != "y")
+        mm("C17:num_connected_components:empty_skeleton:sanitizer_stop", "num_connected_components() on a complex without any created vertex: the probe child died (UBSan: reference binding to null pointer, &component[0] of an empty vector)");
     } else {
       ncc = c.num_connected_components();
     }
@@ -469,7 +465,34 @@ struct Driver {
   }
 
 #undef ctx
-  struct Exec { std::string key; bool consistent; };
+  // recognised = the only divergence is the recorded star-removal finding (exact footprint, see exec)
+  struct Exec { std::string key; bool consistent; bool recognised; };
+
+  static bool star_of_vertex_or_edge(const Op& o) {
+    return o.k == RS_VERTEX || o.k == RS_EDGE || o.k == RS_EDGE_HANDLE || (o.k == RS_SIMPLEX && pc(o.s) <= 2);
+  }
+  // blocker \ removed for the blockers through the removed vertex / edge (only those of dimension >= 1: a lost vertex
+  // is never part of the recorded footprint)
+  static std::vector<Mask> sub_blocker_candidates(const Model& before, const Op& o) {
+    std::vector<Mask> v;
+    for (Mask b : before.blockers()) if ((b & o.s) == o.s && pc(b & ~o.s) >= 2) v.push_back(b & ~o.s);
+    return v;
+  }
+  static bool same_complex(const SB& c, const Model& m) {
+    int nb = (int)boost::num_vertices(c.skeleton);
+    if (nb != m.N) return false;
+    return impl_simplices_by_contains(c, m.N) == m.simplices() && impl_blockers(c) == m.blockers();
+  }
+  // Re-synchronisation after the recorded finding: a fresh implementation object that represents the model state,
+  // built through the plain route (n vertices, removal of isolated vertices, edges without blockers, blockers).
+  static std::unique_ptr<SB> rebuild(const Model& m) {
+    std::unique_ptr<SB> c(new SB((size_t)m.N));
+    for (int i = 0; i < m.N; ++i) if (!(m.active >> i & 1)) c->remove_star(VH(i));
+    for (int a = 0; a < m.N; ++a) for (int b = a + 1; b < m.N; ++b)
+      if (m.has((1u << a) | (1u << b))) c->add_edge_without_blockers(VH(a), VH(b));
+    for (Mask b : m.blockers()) c->add_blocker(to_sx(b));
+    return c;
+  }
 
   Exec exec(const std::vector<int>& hist, bool report) const {
     g_report = report;
@@ -477,7 +500,6 @@ struct Driver {
     Model m, before;
     const Op* first = hist.empty() ? nullptr : &ops[hist[0]];
     std::unique_ptr<SB> cp = construct(first);
-    SB& c = *cp;
     std::string tag = "initial", fp;
     std::vector<Mask> impl_before;
     for (size_t i = 0; i < hist.size(); ++i) {
@@ -487,21 +509,30 @@ struct Driver {
       apply_model(m, o);
       if (last) {
         tag = step_name(o, before);
-        if (o.k == CONTRACT) impl_before = impl_simplices_by_contains(c, before.N);
+        if (o.k == CONTRACT) impl_before = impl_simplices_by_contains(*cp, before.N);
       }
-      if (i > 0 || (o.k != INIT_N && o.k != CTOR_LIST && o.k != CTOR_LIST_REV)) apply_impl(c, o, before, last ? tag : "prefix");
+      if (i > 0 || (o.k != INIT_N && o.k != CTOR_LIST && o.k != CTOR_LIST_REV)) apply_impl(*cp, o, before, last ? tag : "prefix");
+      // A prefix is only ever extended when it is consistent or when its only divergence is the recorded
+      // star-removal finding; in the second case the exploration continues from the model state.
+      if (!last && star_of_vertex_or_edge(o) && !sub_blocker_candidates(before, o).empty() && !same_complex(*cp, m)) {
+        cp = rebuild(m);
+        if (report) vf::stats().add("resynchronised_after_recorded_finding");
+        if (!same_complex(*cp, m)) mm("C17:ENGINE:resynchronisation_failed", "rebuilt object differs from the model " + m.text());
+      }
     }
+    SB& c = *cp;
     if (!hist.empty()) {
       const Op& o = ops[hist.back()];
-      // footprint of the star-removal blocker update: for a removed vertex / edge s and a blocker b >= s with
-      // dim b - dim s >= 2 the code adds b\s as a blocker.  Predicted from the model only.
-      if (o.k == RS_VERTEX || o.k == RS_EDGE || o.k == RS_EDGE_HANDLE || (o.k == RS_SIMPLEX && pc(o.s) <= 2)) {
-        std::vector<Mask> sub;
-        for (Mask b : before.blockers()) if ((b & o.s) == o.s && (pc(b) - pc(o.s)) >= 2) sub.push_back(b & ~o.s);
-        if (report) vf::stats().add(sub.empty() ? "nv." + tag + ".no_blocker_through" : "nv." + tag + ".blocker_through");
-        if (!sub.empty()) {
-          // predicted loss: exactly the simplices of the abstract result that contain some b\s
-          std::vector<Mask> pred, got = impl_simplices_by_contains(c, std::max(m.N, (int)boost::num_vertices(c.skeleton))), want = m.simplices(), lost, gained;
+      // Footprint of the star-removal blocker update, derived from what is observed: S = the simplices b\s (b a
+      // blocker through the removed vertex / edge s, dim b\s >= 1) that contains() no longer reports.  The recorded
+      // finding is recognised iff the lost simplices are exactly the simplices of the abstract result that contain
+      // a member of S and nothing is gained; the suffix says whether S holds edges, higher simplices or both.
+      if (star_of_vertex_or_edge(o)) {
+        std::vector<Mask> cand = sub_blocker_candidates(before, o);
+        if (report) vf::stats().add(cand.empty() ? "nv." + tag + ".no_blocker_through" : "nv." + tag + ".blocker_through");
+        if (!cand.empty()) {
+          std::vector<Mask> pred, sub, got = impl_simplices_by_contains(c, std::min(8, std::max(m.N, (int)boost::num_vertices(c.skeleton)))), want = m.simplices(), lost, gained;
+          for (Mask x : cand) if (!std::binary_search(got.begin(), got.end(), x, by_dim)) sub.push_back(x);
           for (Mask t : want) for (Mask x : sub) if ((t & x) == x) { pred.push_back(t); break; }
           std::set_difference(want.begin(), want.end(), got.begin(), got.end(), std::back_inserter(lost), by_dim);
           std::set_difference(got.begin(), got.end(), want.begin(), want.end(), std::back_inserter(gained), by_dim);
@@ -554,11 +585,17 @@ struct Driver {
     }
     Exec r;
     r.consistent = !g_inconsistent;
-    r.key = m.key() + "|" + impl_key(c);
+    r.recognised = !r.consistent && !fp.empty();
+    // a history whose only divergence is the recorded finding continues from the model state: its key is the key of
+    // the re-synchronised object, so it merges with the same state reached without the finding
+    if (r.recognised) { std::unique_ptr<SB> rc = rebuild(m); r.key = m.key() + "|" + impl_key(*rc); }
+    else r.key = m.key() + "|" + impl_key(c);
     if (report) {
-      if (!r.consistent) vf::stats().add("diverged_histories_not_extended");
-      else {
-        vf::stats().distinct("consistent_states", m.key(), 4000000);
+      if (r.recognised) vf::stats().add("recorded_finding_histories_continued_from_model_state");
+      else if (!r.consistent) vf::stats().add("diverged_histories_not_extended");
+      if (r.recognised) vf::stats().distinct("states_reached_through_recorded_finding", m.key(), 4000000);
+      if (r.consistent) vf::stats().distinct("consistent_states", m.key(), 4000000);
+      if (r.consistent || r.recognised) {
         if (!m.blockers().empty()) vf::stats().distinct("states_with_blockers", m.key(), 4000000);
         if (pc(m.active) >= 3) vf::stats().distinct("nontrivial_states", m.key(), 4000000);
       }
@@ -575,8 +612,9 @@ struct Driver {
   std::vector<int> enabled(const std::vector<int>& hist) const {
     std::vector<int> r;
     // a history after which implementation and model differ is reported once and not extended (later comparisons
-    // would only repeat the same divergence under other names)
-    if (!hist.empty() && !exec(hist, false).consistent) return r;
+    // would only repeat the same divergence under other names) - except when the divergence is exactly the recorded
+    // star-removal finding: then the successors are executed on an object rebuilt from the model state
+    if (!hist.empty()) { Exec e = exec(hist, false); if (!e.consistent && !e.recognised) return r; }
     Model m = model_after(hist);
     for (size_t i = 0; i < ops.size(); ++i) if (is_enabled(m, ops[i], hist.empty())) r.push_back((int)i);
     return r;
@@ -594,11 +632,8 @@ int main(int argc, char** argv) {
     auto kv = vf::parse_kv(a.replay);
     d.init(atoi(kv["nmax"].c_str()), atoi(kv["nctor"].c_str()), atoi(kv["variants"].c_str()));
     std::vector<int> h = vf::parse_ints(kv["ops"]);
-    for (size_t n = 0; n <= h.size(); ++n) {
-      std::vector<int> p(h.begin(), h.begin() + n);
-      vf::set_case(d.describe(p));
-      d.run(p);
-    }
+    vf::set_case(d.describe(h));
+    d.run(h);
     vf::finish();
     return 0;
   }
@@ -618,6 +653,11 @@ int main(int argc, char** argv) {
   s.add("ev.evaluations", r.transitions + 1 + r.validated);
   s.add("ev.nontrivial", (long long)s.sets["nontrivial_states"].size());
   s.add("consistent_states." + cfgname, (long long)s.sets["consistent_states"].size());
+  {  // model states that no history reached without passing through the recorded finding as its last step
+    long long only = 0;
+    for (auto& k : s.sets["states_reached_through_recorded_finding"]) if (!s.sets["consistent_states"].count(k)) ++only;
+    s.add("states_reached_only_through_recorded_finding." + cfgname, only);
+  }
   bool complete = r.closed || (a.geti("depth", 1000) < 1000 && r.completed_depth >= a.geti("depth", 1000) && !r.deadline_hit && !r.failed);
   if (!complete) s.add("ev.incomplete", 1);
   s.add("closed." + cfgname, r.closed ? 1 : 0);
